@@ -758,6 +758,7 @@ type c14Summary struct {
 	ClassMixes map[string]int `json:"class_mix_histogram"`
 	Sentinels  []c14Sentinel  `json:"sentinels"`
 	EnvRuns    int            `json:"environment_fault_runs"`
+	Aged       int            `json:"process_aged_with_calls"`
 }
 
 // c14Sentinel: the same seeded cases are run by every worker process; their
@@ -791,8 +792,44 @@ func mixKey(cl string) string {
 	return k
 }
 
+// AgeProcess makes the process an old one before anything is explored in it:
+// quantifiers over n maps with n different key sets, a text operator applied to
+// n different strings, n different expressions parsed. Tables with a capacity,
+// counters with a threshold and memos that start evicting are then past their
+// first fill. Every second worker process is aged, so young processes stay
+// covered as well.
+func AgeProcess(seed uint64, n int) {
+	r := plan.New(plan.Mix(seed, 0xa9e))
+	q := NewObject(ObjSpec{Kind: "evaluator", Expr: `( any m as k, v { v == 0 } ) or name matches "^zz" or name in tags`})
+	f := NewObject(ObjSpec{Kind: "filter", Expr: `v != 0`})
+	if q.Ev == nil || f.Fl == nil {
+		panic("AgeProcess: cannot create its objects: " + q.Err + q.Pan + f.Err + f.Pan)
+	}
+	for i := 0; i < n; i++ {
+		m := map[string]interface{}{}
+		for j, k := 0, r.Range(2, 4); j < k; j++ {
+			m[fmt.Sprintf("age-%d-%d", i, j)] = j + 1
+		}
+		q.Evaluate(map[string]interface{}{"m": m, "name": fmt.Sprintf("aged-%05d", i), "tags": []string{"t", fmt.Sprintf("tag-%d", i)}})
+		if i%4 == 0 {
+			rec := map[string]interface{}{}
+			for k, v := range m {
+				rec[k] = map[string]interface{}{"v": v}
+			}
+			f.Execute(rec)
+		}
+		if i%5 == 0 {
+			NewObject(ObjSpec{Kind: "evaluator", Expr: fmt.Sprintf(`age%d == %d and "x%d" in tags`, i, i, i)})
+		}
+	}
+}
+
 func workerC14(cfg WorkerCfg) int {
 	sum := c14Summary{Type: "summary", ByFamily: map[string]int{}, ClassMixes: map[string]int{}}
+	if cfg.From%2 == 1 {
+		AgeProcess(cfg.Seed, 1600)
+		sum.Aged = 1600
+	}
 	for idx := cfg.From; idx < cfg.To; idx += cfg.Stride {
 		if cfg.expired() {
 			break
